@@ -64,6 +64,25 @@ theorem lookup_some_mem {β : Type} (l : List (α × β)) (a : α) (v : β) (h :
     · have : a = c := by simpa using hc
       subst this; subst h; simp
 
+theorem lookup_of_mem_nodup {β : Type} (l : List (α × β)) (a : α) (v : β) (h : (a, v) ∈ l) (hnd : (l.map (·.1)).Nodup) :
+    l.lookup a = some v := by
+  induction l with
+  | nil => simp at h
+  | cons p rest ih =>
+    obtain ⟨b, w⟩ := p
+    simp only [List.map_cons, List.nodup_cons] at hnd
+    rcases List.mem_cons.mp h with e | e
+    · simp only [Prod.mk.injEq] at e
+      obtain ⟨e1, e2⟩ := e
+      subst e1; subst e2
+      simp [List.lookup]
+    · have hne : a ≠ b := by
+        intro e'; subst e'
+        exact hnd.1 (List.mem_map.mpr ⟨(a, v), e, rfl⟩)
+      have : (a == b) = false := by simpa using hne
+      simp only [List.lookup_cons, this]
+      exact ih e hnd.2
+
 theorem lookup_none_iff {β : Type} (l : List (α × β)) (a : α) : l.lookup a = none ↔ a ∉ l.map (·.1) := by
   induction l with
   | nil => simp [List.lookup]
@@ -80,7 +99,7 @@ end assoc
 
 /-! ### the profile loop -/
 section loop
-variable {κ : Type} [BEq κ] [LawfulBEq κ]
+variable {κ : Type} [BEq κ] [LawfulBEq κ] {upd : FeatureInfo → FeatureInfo → FeatureInfo}
 set_option linter.unusedSectionVars false
 
 /-- number of positions `i` with `profile[i] = v` whose feature `pmap[i]` has key `k` -/
@@ -120,7 +139,7 @@ theorem getCount_incr_pair (m : List ((κ × Nat) × Nat)) (a : κ) (gid : Nat) 
 
 /-- effect of a successful run of the loop on the counters; the group table is untouched -/
 theorem addLoop_counts (key : FeatureInfo → κ) (gid : Nat) (prof : List Int) :
-    ∀ (pm : List FeatureInfo) (st st' : PCounter κ), addLoop key gid prof pm st = some st' →
+    ∀ (pm : List FeatureInfo) (st st' : PCounter κ), addLoop key upd gid prof pm st = some st' →
       st'.groupIds = st.groupIds ∧ st'.nextGroup = st.nextGroup ∧
       (∀ k n, getCount st'.incl (k, n) = getCount st.incl (k, n) + (if n = gid then hits key 1 k prof pm else 0)) ∧
       (∀ k n, getCount st'.excl (k, n) = getCount st.excl (k, n) + (if n = gid then hits key (-1) k prof pm else 0)) := by
@@ -168,42 +187,133 @@ theorem addLoop_counts (key : FeatureInfo → κ) (gid : Nat) (prof : List Int) 
 
 /-! ### the name table -/
 
-theorem addName_mem_old (names : List (κ × FeatureInfo)) (k : κ) (fi : FeatureInfo) (p : κ × FeatureInfo)
-    (h : p ∈ names) : p ∈ addName names k fi := by
-  unfold addName; split <;> simp [h]
-
-theorem addName_mem (names : List (κ × FeatureInfo)) (k : κ) (fi : FeatureInfo) (p : κ × FeatureInfo)
-    (h : p ∈ addName names k fi) : p ∈ names ∨ p = (k, fi) := by
-  unfold addName at h; split at h
-  · exact Or.inl h
-  · simpa using h
+theorem addName_keys (names : List (κ × FeatureInfo)) (k : κ) (fi : FeatureInfo) :
+    (addName upd names k fi).map (·.1) = if k ∈ names.map (·.1) then names.map (·.1) else names.map (·.1) ++ [k] := by
+  induction names with
+  | nil => simp [addName]
+  | cons p rest ih =>
+    obtain ⟨k', f'⟩ := p
+    unfold addName
+    by_cases h : k == k'
+    · have e : k = k' := by simpa using h
+      subst e; simp
+    · have hne : k ≠ k' := by simpa using h
+      simp only [h, Bool.false_eq_true, if_false, List.map_cons, ih]
+      by_cases hm : k ∈ rest.map (·.1)
+      · simp [hm]
+      · simp [hm, hne]
 
 theorem addName_key_mem (names : List (κ × FeatureInfo)) (k : κ) (fi : FeatureInfo) :
-    k ∈ (addName names k fi).map (·.1) := by
-  unfold addName; split
-  · rename_i v hv
-    have := lookup_some_mem names k v hv
-    exact List.mem_map.mpr ⟨(k, v), this, rfl⟩
+    k ∈ (addName upd names k fi).map (·.1) := by
+  rw [addName_keys]; split
+  · assumption
   · simp
 
-theorem addName_nodup (names : List (κ × FeatureInfo)) (k : κ) (fi : FeatureInfo)
-    (h : (names.map (·.1)).Nodup) : ((addName names k fi).map (·.1)).Nodup := by
-  unfold addName; split
+theorem addName_keys_old (names : List (κ × FeatureInfo)) (k : κ) (fi : FeatureInfo) (k' : κ)
+    (h : k' ∈ names.map (·.1)) : k' ∈ (addName upd names k fi).map (·.1) := by
+  rw [addName_keys]; split
   · exact h
-  · rename_i hn
-    have hk : k ∉ names.map (·.1) := (lookup_none_iff names k).mp hn
-    rw [List.map_append, List.nodup_append]
+  · exact List.mem_append_left _ h
+
+theorem addName_nodup (names : List (κ × FeatureInfo)) (k : κ) (fi : FeatureInfo)
+    (h : (names.map (·.1)).Nodup) : ((addName upd names k fi).map (·.1)).Nodup := by
+  rw [addName_keys]; split
+  · exact h
+  · rename_i hk
+    rw [List.nodup_append]
     refine ⟨h, by simp, ?_⟩
     intro a ha b hb
     simp at hb
     subst hb
     intro e; subst e; exact hk ha
 
-theorem addName_prefix (names : List (κ × FeatureInfo)) (k : κ) (fi : FeatureInfo) :
-    names <+: addName names k fi := by
-  unfold addName; split
+theorem addName_keys_prefix (names : List (κ × FeatureInfo)) (k : κ) (fi : FeatureInfo) :
+    names.map (·.1) <+: (addName upd names k fi).map (·.1) := by
+  rw [addName_keys]; split
   · exact List.prefix_refl _
   · exact List.prefix_append _ _
+
+/-- every stored description has the key it is stored under, provided `upd` does not change the key -/
+theorem addName_names_key (key : FeatureInfo → κ) (hupd : ∀ a b, key (upd a b) = key a)
+    (names : List (κ × FeatureInfo)) (fi : FeatureInfo) (h : ∀ p ∈ names, key p.2 = p.1) :
+    ∀ p ∈ addName upd names (key fi) fi, key p.2 = p.1 := by
+  induction names with
+  | nil => intro p hp; simp [addName] at hp; subst hp; rfl
+  | cons q rest ih =>
+    obtain ⟨k', f'⟩ := q
+    intro p hp
+    unfold addName at hp
+    by_cases hk : key fi == k'
+    · simp only [hk, if_true] at hp
+      rcases List.mem_cons.mp hp with e | e
+      · subst e; simp only; rw [hupd]; exact h (k', f') (List.mem_cons_self ..)
+      · exact h p (List.mem_cons_of_mem _ e)
+    · simp only [hk, Bool.false_eq_true, if_false] at hp
+      rcases List.mem_cons.mp hp with e | e
+      · subst e; exact h (k', f') (List.mem_cons_self ..)
+      · exact ih (fun p hp => h p (List.mem_cons_of_mem _ hp)) p e
+
+theorem lookup_addName (names : List (κ × FeatureInfo)) (k : κ) (fi : FeatureInfo) (k' : κ) :
+    (addName upd names k fi).lookup k' =
+      if k' == k then some (match names.lookup k with | some a => upd a fi | none => fi) else names.lookup k' := by
+  induction names with
+  | nil =>
+    by_cases h : k' == k
+    · have e : k' = k := by simpa using h
+      subst e; simp [addName, List.lookup]
+    · simp [addName, List.lookup, h]
+  | cons q rest ih =>
+    obtain ⟨k2, f2⟩ := q
+    unfold addName
+    by_cases hk : k == k2
+    · have e : k = k2 := by simpa using hk
+      subst e
+      simp only [BEq.rfl, if_true, List.lookup_cons]
+      by_cases h : k' == k
+      · simp [h]
+      · simp [h]
+    · have hne : k ≠ k2 := by simpa using hk
+      have hk2 : (k == k2) = false := by simpa using hne
+      simp only [hk2, Bool.false_eq_true, if_false, List.lookup_cons, ih]
+      by_cases h : k' == k
+      · have e : k' = k := by simpa using h
+        subst e
+        simp [hk2]
+      · simp only [h, Bool.false_eq_true, if_false]
+
+/-- the name table after feeding a list of descriptions -/
+def nameFold (key : FeatureInfo → κ) (upd : FeatureInfo → FeatureInfo → FeatureInfo) (names : List (κ × FeatureInfo))
+    (l : List FeatureInfo) : List (κ × FeatureInfo) :=
+  l.foldl (fun nm fi => addName upd nm (key fi) fi) names
+
+/-- what is stored under a key: the first description with that key, updated with the later ones in order -/
+theorem lookup_nameFold (key : FeatureInfo → κ) (l : List FeatureInfo) : ∀ (names : List (κ × FeatureInfo)) (k : κ),
+    (nameFold key upd names l).lookup k =
+      match names.lookup k with
+      | some a => some ((l.filter (fun fi => key fi == k)).foldl upd a)
+      | none =>
+        match l.filter (fun fi => key fi == k) with
+        | [] => none
+        | f :: r => some (r.foldl upd f) := by
+  induction l with
+  | nil => intro names k; simp [nameFold]; cases names.lookup k <;> rfl
+  | cons fi rest ih =>
+    intro names k
+    have hunf : nameFold key upd names (fi :: rest) = nameFold key upd (addName upd names (key fi) fi) rest := rfl
+    rw [hunf, ih, lookup_addName]
+    by_cases hk : k = key fi
+    · subst hk
+      simp only [BEq.rfl, if_true, List.filter_cons]
+      cases names.lookup (key fi) <;> simp
+    · have hk' : (key fi == k) = false := by
+        simp only [beq_eq_false_iff_ne, ne_eq]; exact fun e => hk e.symm
+      have hk2 : (k == key fi) = false := by
+        simp only [beq_eq_false_iff_ne, ne_eq]; exact hk
+      simp only [hk2, Bool.false_eq_true, if_false, List.filter_cons, hk']
+
+/-- the descriptions at the positions of a property map where the profile is +1 or −1, in order -/
+def touchedOf (prof : List Int) (pm : List FeatureInfo) : List FeatureInfo :=
+  ((prof.zip pm).filter (fun x => x.1 == 1 || x.1 == -1)).map (·.2)
 
 /-- the part of the counter invariant that concerns the name table -/
 structure NInv (key : FeatureInfo → κ) (st : PCounter κ) : Prop where
@@ -211,48 +321,39 @@ structure NInv (key : FeatureInfo → κ) (st : PCounter κ) : Prop where
   names_nodup : (st.names.map (·.1)).Nodup
   counted_named : ∀ k n, 0 < getCount st.incl (k, n) + getCount st.excl (k, n) → k ∈ st.names.map (·.1)
 
-theorem NInv_step_incl (key : FeatureInfo → κ) (st : PCounter κ) (fi : FeatureInfo) (gid : Nat) (h : NInv key st) :
-    NInv key { st with incl := incr st.incl (key fi, gid), names := addName st.names (key fi) fi } := by
-  refine ⟨?_, addName_nodup _ _ _ h.names_nodup, ?_⟩
-  · intro p hp
-    rcases addName_mem _ _ _ _ hp with h1 | h1
-    · exact h.names_key p h1
-    · subst h1; rfl
-  · intro k n hpos
-    simp only [getCount_incr_pair] at hpos
-    by_cases hk : key fi == k
-    · have : key fi = k := by simpa using hk
-      subst this; exact addName_key_mem _ _ _
-    · have hold : 0 < getCount st.incl (k, n) + getCount st.excl (k, n) := by
-        simp [hk] at hpos; exact hpos
-      obtain ⟨p, hp, hpk⟩ := List.mem_map.mp (h.counted_named k n hold)
-      exact List.mem_map.mpr ⟨p, addName_mem_old _ _ _ _ hp, hpk⟩
+theorem NInv_step_incl (key : FeatureInfo → κ) (hupd : ∀ a b, key (upd a b) = key a) (st : PCounter κ) (fi : FeatureInfo)
+    (gid : Nat) (h : NInv key st) :
+    NInv key { st with incl := incr st.incl (key fi, gid), names := addName upd st.names (key fi) fi } := by
+  refine ⟨addName_names_key key hupd _ _ h.names_key, addName_nodup _ _ _ h.names_nodup, ?_⟩
+  intro k n hpos
+  simp only [getCount_incr_pair] at hpos
+  by_cases hk : key fi == k
+  · have : key fi = k := by simpa using hk
+    subst this; exact addName_key_mem _ _ _
+  · have hold : 0 < getCount st.incl (k, n) + getCount st.excl (k, n) := by
+      simp [hk] at hpos; exact hpos
+    exact addName_keys_old _ _ _ _ (h.counted_named k n hold)
 
-theorem NInv_step_excl (key : FeatureInfo → κ) (st : PCounter κ) (fi : FeatureInfo) (gid : Nat) (h : NInv key st) :
-    NInv key { st with excl := incr st.excl (key fi, gid), names := addName st.names (key fi) fi } := by
-  refine ⟨?_, addName_nodup _ _ _ h.names_nodup, ?_⟩
-  · intro p hp
-    rcases addName_mem _ _ _ _ hp with h1 | h1
-    · exact h.names_key p h1
-    · subst h1; rfl
-  · intro k n hpos
-    simp only [getCount_incr_pair] at hpos
-    by_cases hk : key fi == k
-    · have : key fi = k := by simpa using hk
-      subst this; exact addName_key_mem _ _ _
-    · have hold : 0 < getCount st.incl (k, n) + getCount st.excl (k, n) := by
-        simp [hk] at hpos; exact hpos
-      obtain ⟨p, hp, hpk⟩ := List.mem_map.mp (h.counted_named k n hold)
-      exact List.mem_map.mpr ⟨p, addName_mem_old _ _ _ _ hp, hpk⟩
+theorem NInv_step_excl (key : FeatureInfo → κ) (hupd : ∀ a b, key (upd a b) = key a) (st : PCounter κ) (fi : FeatureInfo)
+    (gid : Nat) (h : NInv key st) :
+    NInv key { st with excl := incr st.excl (key fi, gid), names := addName upd st.names (key fi) fi } := by
+  refine ⟨addName_names_key key hupd _ _ h.names_key, addName_nodup _ _ _ h.names_nodup, ?_⟩
+  intro k n hpos
+  simp only [getCount_incr_pair] at hpos
+  by_cases hk : key fi == k
+  · have : key fi = k := by simpa using hk
+    subst this; exact addName_key_mem _ _ _
+  · have hold : 0 < getCount st.incl (k, n) + getCount st.excl (k, n) := by
+      simp [hk] at hpos; exact hpos
+    exact addName_keys_old _ _ _ _ (h.counted_named k n hold)
 
-/-- the loop keeps the name-table invariant; every name it adds is a feature of the property map at a position
-    where the profile is +1 or −1; old names keep their place (the table only grows at the end) -/
-theorem addLoop_names (key : FeatureInfo → κ) (gid : Nat) (prof : List Int) :
-    ∀ (pm : List FeatureInfo) (st st' : PCounter κ), addLoop key gid prof pm st = some st' → NInv key st →
-      NInv key st' ∧ st.names <+: st'.names ∧
-      (∀ p ∈ st'.names, p ∈ st.names ∨ ∃ x ∈ prof.zip pm, (x.1 = 1 ∨ x.1 = -1) ∧ p = (key x.2, x.2)) := by
+/-- the loop keeps the name-table invariant, and the name table afterwards is the one before fed with the descriptions
+    at the +1 / −1 positions, in order -/
+theorem addLoop_names (key : FeatureInfo → κ) (hupd : ∀ a b, key (upd a b) = key a) (gid : Nat) (prof : List Int) :
+    ∀ (pm : List FeatureInfo) (st st' : PCounter κ), addLoop key upd gid prof pm st = some st' → NInv key st →
+      NInv key st' ∧ st'.names = nameFold key upd st.names (touchedOf prof pm) := by
   induction prof with
-  | nil => intro pm st st' h hi; simp [addLoop] at h; subst h; exact ⟨hi, List.prefix_refl _, fun p hp => Or.inl hp⟩
+  | nil => intro pm st st' h hi; simp [addLoop] at h; subst h; exact ⟨hi, by simp [touchedOf, nameFold]⟩
   | cons v vs ih =>
     intro pm st st' h hinv
     unfold addLoop at h
@@ -262,14 +363,9 @@ theorem addLoop_names (key : FeatureInfo → κ) (gid : Nat) (prof : List Int) :
       | nil => simp at h
       | cons fi rest =>
         simp only at h
-        obtain ⟨hi', hpre, hprov⟩ := ih rest _ st' h (NInv_step_incl key st fi gid hinv)
-        refine ⟨hi', List.IsPrefix.trans (addName_prefix _ _ _) hpre, ?_⟩
-        intro p hp
-        rcases hprov p hp with h3 | ⟨x, hx, hx2⟩
-        · rcases addName_mem _ _ _ _ h3 with h4 | h4
-          · exact Or.inl h4
-          · exact Or.inr ⟨(v, fi), by simp [h1], by simp [h1], h4⟩
-        · exact Or.inr ⟨x, by simp [List.zip_cons_cons, hx], hx2⟩
+        obtain ⟨hi', hn⟩ := ih rest _ st' h (NInv_step_incl key hupd st fi gid hinv)
+        refine ⟨hi', ?_⟩
+        rw [hn]; simp [touchedOf, nameFold, h1]
     · simp only [h1, if_false] at h
       by_cases h2 : v = -1
       · simp only [h2, if_true] at h
@@ -277,24 +373,16 @@ theorem addLoop_names (key : FeatureInfo → κ) (gid : Nat) (prof : List Int) :
         | nil => simp at h
         | cons fi rest =>
           simp only at h
-          obtain ⟨hi', hpre, hprov⟩ := ih rest _ st' h (NInv_step_excl key st fi gid hinv)
-          refine ⟨hi', List.IsPrefix.trans (addName_prefix _ _ _) hpre, ?_⟩
-          intro p hp
-          rcases hprov p hp with h3 | ⟨x, hx, hx2⟩
-          · rcases addName_mem _ _ _ _ h3 with h4 | h4
-            · exact Or.inl h4
-            · exact Or.inr ⟨(v, fi), by simp [h2], by simp [h2], h4⟩
-          · exact Or.inr ⟨x, by simp [List.zip_cons_cons, hx], hx2⟩
+          obtain ⟨hi', hn⟩ := ih rest _ st' h (NInv_step_excl key hupd st fi gid hinv)
+          refine ⟨hi', ?_⟩
+          rw [hn]; simp [touchedOf, nameFold, h2]
       · simp only [h2, if_false] at h
-        obtain ⟨hi', hpre, hprov⟩ := ih pm.tail st st' h hinv
-        refine ⟨hi', hpre, ?_⟩
-        intro p hp
-        rcases hprov p hp with h3 | ⟨x, hx, hx2⟩
-        · exact Or.inl h3
-        · refine Or.inr ⟨x, ?_, hx2⟩
-          cases pm with
-          | nil => simp at hx
-          | cons f fs => simp [List.zip_cons_cons]; exact Or.inr (by simpa using hx)
+        obtain ⟨hi', hn⟩ := ih pm.tail st st' h hinv
+        refine ⟨hi', ?_⟩
+        rw [hn]
+        cases pm with
+        | nil => simp [touchedOf]
+        | cons f fs => simp [touchedOf, h1, h2]
 
 /-! ### read groups, one read, a history -/
 
@@ -354,7 +442,7 @@ theorem lookup_inj_of_GInv (st : PCounter κ) (hG : GInv st) (g g' : String) (n 
 
 /-- one call of `add_read_info_from_profile` -/
 theorem addRead_counts (key : FeatureInfo → κ) (st st' : PCounter κ) (prof : List Int) (pm : List FeatureInfo) (g : String)
-    (hG : GInv st) (h : addReadInfoFromProfile key st prof pm g = some st') :
+    (hG : GInv st) (h : addReadInfoFromProfile key upd st prof pm g = some st') :
     GInv st' ∧
     (∀ k g', st'.inclOf k g' = st.inclOf k g' + (if g' = g then hits key 1 k prof pm else 0)) ∧
     (∀ k g', st'.exclOf k g' = st.exclOf k g' + (if g' = g then hits key (-1) k prof pm else 0)) ∧
@@ -440,10 +528,10 @@ theorem addRead_counts (key : FeatureInfo → κ) (st st' : PCounter κ) (prof :
             exact List.mem_map.mpr ⟨(g', n), lookup_some_mem _ _ _ hn, rfl⟩
       · rw [hgrp]; simp
 
-theorem addRead_names (key : FeatureInfo → κ) (st st' : PCounter κ) (prof : List Int) (pm : List FeatureInfo) (g : String)
-    (hN : NInv key st) (h : addReadInfoFromProfile key st prof pm g = some st') :
-    NInv key st' ∧ st.names <+: st'.names ∧
-    (∀ p ∈ st'.names, p ∈ st.names ∨ ∃ x ∈ prof.zip pm, (x.1 = 1 ∨ x.1 = -1) ∧ p = (key x.2, x.2)) := by
+theorem addRead_names (key : FeatureInfo → κ) (hupd : ∀ a b, key (upd a b) = key a) (st st' : PCounter κ) (prof : List Int)
+    (pm : List FeatureInfo) (g : String)
+    (hN : NInv key st) (h : addReadInfoFromProfile key upd st prof pm g = some st') :
+    NInv key st' ∧ st'.names = nameFold key upd st.names (touchedOf prof pm) := by
   unfold addReadInfoFromProfile at h
   simp only at h
   split at h
@@ -455,32 +543,40 @@ theorem addRead_names (key : FeatureInfo → κ) (st st' : PCounter κ) (prof : 
       · exact ⟨hN.names_key, hN.names_nodup, hN.counted_named⟩
     have hnm : (ensureGroup st g).names = st.names := by
       unfold ensureGroup; split <;> rfl
-    have := addLoop_names key gid prof pm _ st' h hN1
+    have := addLoop_names key hupd gid prof pm _ st' h hN1
     rw [hnm] at this
     exact this
+
+/-- the descriptions a history counts, in order -/
+def touched (evs : List ReadEv) : List FeatureInfo := evs.flatMap (fun ev => touchedOf ev.profile ev.pmap)
+
+theorem mem_touched (evs : List ReadEv) (x : FeatureInfo) :
+    x ∈ touched evs ↔ ∃ ev ∈ evs, ∃ p ∈ ev.profile.zip ev.pmap, (p.1 = 1 ∨ p.1 = -1) ∧ p.2 = x := by
+  simp only [touched, touchedOf, List.mem_flatMap, List.mem_map, List.mem_filter, Bool.or_eq_true, beq_iff_eq]
+  constructor
+  · rintro ⟨ev, hev, p, ⟨hp, hv⟩, hx⟩; exact ⟨ev, hev, p, hp, hv, hx⟩
+  · rintro ⟨ev, hev, p, hp, hv, hx⟩; exact ⟨ev, hev, p, ⟨hp, hv⟩, hx⟩
 
 /-- the read group a counter files an event under -/
 def groupOf (ignore : Bool) (dflt : String) (ev : ReadEv) : String := if ignore then dflt else ev.group
 
 /-- a whole history: invariants, counts as sums over the events, registered groups, name provenance -/
-theorem run_spec (key : FeatureInfo → κ) (ignore : Bool) (dflt : String) :
+theorem run_spec (key : FeatureInfo → κ) (hupd : ∀ a b, key (upd a b) = key a) (ignore : Bool) (dflt : String) :
     ∀ (evs : List ReadEv) (st st' : PCounter κ), GInv st → NInv key st →
-      runCounter key ignore dflt st evs = some st' →
+      runCounter key upd ignore dflt st evs = some st' →
       GInv st' ∧ NInv key st' ∧
       (∀ k g, st'.inclOf k g = st.inclOf k g +
         ((evs.filter (fun ev => groupOf ignore dflt ev == g)).map (fun ev => hits key 1 k ev.profile ev.pmap)).sum) ∧
       (∀ k g, st'.exclOf k g = st.exclOf k g +
         ((evs.filter (fun ev => groupOf ignore dflt ev == g)).map (fun ev => hits key (-1) k ev.profile ev.pmap)).sum) ∧
       (∀ g, g ∈ st'.groupIds.map (·.1) ↔ g ∈ st.groupIds.map (·.1) ∨ ∃ ev ∈ evs, groupOf ignore dflt ev = g) ∧
-      st.names <+: st'.names ∧
-      (∀ p ∈ st'.names, p ∈ st.names ∨
-        ∃ ev ∈ evs, ∃ x ∈ ev.profile.zip ev.pmap, (x.1 = 1 ∨ x.1 = -1) ∧ p = (key x.2, x.2)) := by
+      st'.names = nameFold key upd st.names (touched evs) := by
   intro evs
   induction evs with
   | nil =>
     intro st st' hG hN h
     simp [runCounter] at h; subst h
-    exact ⟨hG, hN, by simp, by simp, by simp, List.prefix_refl _, fun p hp => Or.inl hp⟩
+    exact ⟨hG, hN, by simp, by simp, by simp, by simp [touched, nameFold]⟩
   | cons ev evs ih =>
     intro st st' hG hN h
     unfold runCounter at h
@@ -489,9 +585,9 @@ theorem run_spec (key : FeatureInfo → κ) (ignore : Bool) (dflt : String) :
     · rename_i st1 h1
       unfold addReadInfo at h1
       obtain ⟨hG1, hi1, he1, hg1⟩ := addRead_counts key st st1 ev.profile ev.pmap _ hG h1
-      obtain ⟨hN1, hp1, hv1⟩ := addRead_names key st st1 ev.profile ev.pmap _ hN h1
-      obtain ⟨hG', hN', hi, he, hg, hp, hv⟩ := ih st1 st' hG1 hN1 h
-      refine ⟨hG', hN', ?_, ?_, ?_, List.IsPrefix.trans hp1 hp, ?_⟩
+      obtain ⟨hN1, hn1⟩ := addRead_names key hupd st st1 ev.profile ev.pmap _ hN h1
+      obtain ⟨hG', hN', hi, he, hg, hn⟩ := ih st1 st' hG1 hN1 h
+      refine ⟨hG', hN', ?_, ?_, ?_, ?_⟩
       · intro k g
         rw [hi k g, hi1 k g]
         simp only [List.filter_cons, groupOf]
@@ -518,12 +614,7 @@ theorem run_spec (key : FeatureInfo → κ) (ignore : Bool) (dflt : String) :
           · exact Or.inl (Or.inl h')
           · subst he'; exact Or.inl (Or.inr hge.symm)
           · exact Or.inr ⟨e, he', hge⟩
-      · intro p hp'
-        rcases hv p hp' with h3 | ⟨e, he', x, hx, hx2⟩
-        · rcases hv1 p h3 with h4 | ⟨x, hx, hx2⟩
-          · exact Or.inl h4
-          · exact Or.inr ⟨ev, by simp, x, hx, hx2⟩
-        · exact Or.inr ⟨e, by simp [he'], x, hx, hx2⟩
+      · rw [hn, hn1]; simp [touched, nameFold, List.foldl_append]
 
 /-! ### sorting the group names, dumping -/
 
@@ -856,7 +947,7 @@ theorem dumpRows_sum (key : FeatureInfo → κ) (st : PCounter κ) (hN : NInv ke
 /-- the ungrouped counter never registers another group: its table stays `{default: 0}` -/
 theorem run_groupIds_ungrouped_aux (key : FeatureInfo → κ) (dflt : String) :
     ∀ (evs : List ReadEv) (st st' : PCounter κ), st.groupIds = [(dflt, 0)] →
-      runCounter key true dflt st evs = some st' → st'.groupIds = [(dflt, 0)] := by
+      runCounter key upd true dflt st evs = some st' → st'.groupIds = [(dflt, 0)] := by
   intro evs
   induction evs with
   | nil => intro st st' h0 h; simp [runCounter] at h; subst h; exact h0
@@ -878,13 +969,13 @@ theorem run_groupIds_ungrouped_aux (key : FeatureInfo → κ) (dflt : String) :
         rw [(addLoop_counts key gid ev.profile ev.pmap st st1 h1).1, h0]
 
 theorem run_groupIds_ungrouped (key : FeatureInfo → κ) (dflt : String) (evs : List ReadEv) (st : PCounter κ)
-    (h : countAll key true dflt evs = some st) : st.groupIds = [(dflt, 0)] :=
+    (h : countAll key upd true dflt evs = some st) : st.groupIds = [(dflt, 0)] :=
   run_groupIds_ungrouped_aux key dflt evs _ st (by simp [PCounter.init]) h
 
 /-! ### no IndexError on a well-formed feed -/
 
 theorem addLoop_isSome (key : FeatureInfo → κ) (gid : Nat) (prof : List Int) :
-    ∀ (pm : List FeatureInfo) (st : PCounter κ), prof.length ≤ pm.length → (addLoop key gid prof pm st).isSome := by
+    ∀ (pm : List FeatureInfo) (st : PCounter κ), prof.length ≤ pm.length → (addLoop key upd gid prof pm st).isSome := by
   induction prof with
   | nil => intro pm st _; simp [addLoop]
   | cons v vs ih =>
@@ -901,7 +992,7 @@ theorem addLoop_isSome (key : FeatureInfo → κ) (gid : Nat) (prof : List Int) 
         · exact ih fs _ h'
 
 theorem addRead_isSome (key : FeatureInfo → κ) (st : PCounter κ) (prof : List Int) (pm : List FeatureInfo) (g : String)
-    (h : prof.length ≤ pm.length) : (addReadInfoFromProfile key st prof pm g).isSome := by
+    (h : prof.length ≤ pm.length) : (addReadInfoFromProfile key upd st prof pm g).isSome := by
   unfold addReadInfoFromProfile
   simp only
   have : ∃ gid, (ensureGroup st g).groupIds.lookup g = some gid := by
@@ -918,16 +1009,16 @@ theorem addRead_isSome (key : FeatureInfo → κ) (st : PCounter κ) (prof : Lis
 
 theorem runCounter_isSome (key : FeatureInfo → κ) (ignore : Bool) (dflt : String) :
     ∀ (evs : List ReadEv) (st : PCounter κ), (∀ ev ∈ evs, ev.profile.length ≤ ev.pmap.length) →
-      (runCounter key ignore dflt st evs).isSome := by
+      (runCounter key upd ignore dflt st evs).isSome := by
   intro evs
   induction evs with
   | nil => intro st _; simp [runCounter]
   | cons ev evs ih =>
     intro st h
     unfold runCounter
-    have h1 := addRead_isSome key st ev.profile ev.pmap (if ignore then dflt else ev.group) (h ev (by simp))
+    have h1 := addRead_isSome (upd := upd) key st ev.profile ev.pmap (if ignore then dflt else ev.group) (h ev (by simp))
     unfold addReadInfo
-    cases hc : addReadInfoFromProfile key st ev.profile ev.pmap (if ignore then dflt else ev.group) with
+    cases hc : addReadInfoFromProfile key upd st ev.profile ev.pmap (if ignore then dflt else ev.group) with
     | none => rw [hc] at h1; simp at h1
     | some st' => exact ih st' (fun e he => h e (by simp [he]))
 
